@@ -546,6 +546,10 @@ func runC06(c *Ctx) {
 		enc := p.methodOf(types.NewPointer(nt), "MarshalBinary")
 		e := toksString(seqOf(p, enc, 0), false)
 		c.check(e == "type u32 str* str*", "R1", "sftp encoder "+tn+" layout", p.Pos(enc.Pos()), e, tn+" is encoded as ["+e+"], expected [type u32 (str str)*]")
+		// the pair is a name and its data, in that order
+		if ef := strings.Fields(toksString(seqOf(p, enc, 0), true)); len(ef) == 4 {
+			c.check(ef[2] != ef[3], "R1", "sftp encoder "+tn+" pairs", p.Pos(enc.Pos()), ef[2]+" "+ef[3], tn+" writes ["+ef[2]+" "+ef[3]+"] for every extension: the same field twice, the other one never")
+		}
 	}
 
 	// ---------- R1 (c): filexfer sibling ----------
